@@ -158,6 +158,7 @@ structure Skeleton where
   cvSliceElementwise         : Bool
   cvFallbackError            : Bool
   pxResultChecksValid        : Bool  -- closure proxy: the result is converted iff `rcpRv[0].Elem().IsValid()` (and for no other reason skipped)
+  pxCtxIsInvocationCtx       : Bool  -- closure proxy: the context of the underlying CallClosure RPC is the proxy's own variable, assigned from the invocation's first argument (not the link context)
   pxArgsFreshPerInvocation   : Bool  -- closure proxy: the []interface{} argument list is built inside the per-invocation literal
   clArgCountChecked          : Bool
   clCallViaUtilsCall         : Bool
@@ -200,6 +201,7 @@ structure Skeleton where
   stDecoderExitsOnErr        : Bool
   stAbortClosesDone          : Bool  -- (repaired tree) every context-done exit of the decoder records decodeErr and closes decodeDone before returning
   stDoneClosedOncePerExit    : Bool  -- decodeDone is closed exactly once on every way out of the decoder goroutine (one deferred close and no other, or one close in front of each exit), and nowhere else
+  stMsgFreshPerIteration     : Bool  -- the Message envelope is declared inside the decode loop (no member survives from one frame into the next)
   stReadersSelectDone        : Bool
   stEncodeRequestOnly        : Bool  -- Message{Request:&b}
   stEncodeResponseOnly       : Bool  -- Message{Response:&b}
